@@ -386,7 +386,12 @@ func bindOne(r *Run, a *bindActor, obj reflect.Value, m reflect.Method, d *Deplo
 			if c.halted {
 				halted = true
 				if err != nil && !strings.Contains(err.Error(), "session") {
-					r.Violation("C15/binding-cannot-decode-result", "", "rpc/%s.%s: contract method %s HALTed but the binding returned: %v", d.Repo, m.Name, c.method, err)
+					kf := ""
+					if d.Repo == "container" && m.Name == "EACL" && strings.Contains(err.Error(), "field Pub") {
+						// narrow matcher: eACL of a live container that never had a table
+						kf = "binding-decode:container.EACL:empty-pub"
+					}
+					r.ViolationOrKnown("C15/binding-cannot-decode-result", kf, "rpc/%s.%s: contract method %s HALTed but the binding returned: %v", d.Repo, m.Name, c.method, err)
 					return
 				}
 				r.Cell("C15.bindings.decoded", d.Repo+"."+m.Name)
